@@ -72,6 +72,12 @@ class DeepFn(FnTr):
             raise Untranslatable("mixed return kinds %s" % sorted(self.kinds))
         return params, tree, self.kinds.pop()
 
+    @staticmethod
+    def strip_parens(n):
+        while n.get("kind") == "ParenExpr":
+            n = n["inner"][0]
+        return n
+
     def fall_end(self, P):
         if self.ret[0] != "v":
             raise Untranslatable("falls off the end")
@@ -127,10 +133,46 @@ class DeepFn(FnTr):
             return Leaf(P.ops, v[2], v[1])
         raise Untranslatable("returns a parameter-only Boolean / pointer")
 
+    def local_byte(self, n, P):
+        """`p[k]` with `p` a char pointer to a local scalar and `k` a constant: (declaration id, width of the local, k)"""
+        base, idx = n["inner"]
+        et = self.ty(n)
+        if et[0] != "i" or et[1] != 8:
+            raise Untranslatable("subscript of a non-char pointer")
+        p = self.dx(base, P)
+        if p[0] != "lp":
+            raise Untranslatable("subscript of a pointer into memory")
+        kk = self.const_int(idx)
+        if not (0 <= kk < p[2] // 8):
+            raise Untranslatable("subscript outside the local object")
+        return p[1], p[2], kk
+
+    def local_byte_load(self, n, P):
+        did, w, kk = self.local_byte(n, P)
+        x = P.env[did][1]
+        if kk:
+            x = P.emit(".ushr %d %s %d" % (w, x, 8 * kk))
+        return ("v", P.emit(".trunc 8 %s" % x))
+
+    def local_byte_store(self, s, P):
+        """`p[k] = e;` on a local scalar: byte k (little-endian host) of the local's value is replaced"""
+        l, r = s["inner"]
+        did, w, kk = self.local_byte(l, P)
+        v = self.val(self.dx(r, P), P)
+        v = P.emit(".trunc 8 %s" % v)
+        if kk:
+            v = P.emit(".ushl %d %s %d" % (w, v, 8 * kk))
+        keep = P.emit(".const %d" % (((1 << w) - 1) & ~(0xFF << (8 * kk))))
+        old = P.emit(".band %s %s" % (P.env[did][1], keep))
+        P.env[did] = ("v", P.emit(".bor %s %s" % (old, v)))
+
     def effect_d(self, s, P, k):
         kind = s.get("kind")
         if kind in ("ParenExpr", "ExprWithCleanups"):
             return self.effect_d(s["inner"][0], P, k)
+        if kind == "BinaryOperator" and s.get("opcode") == "=" and self.strip_parens(s["inner"][0]).get("kind") == "ArraySubscriptExpr":
+            self.local_byte_store(s, P)
+            return k(P)
         if kind == "BinaryOperator" and s.get("opcode") == "=":
             l, r = s["inner"]
             v = self.val(self.dx(r, P), P)
@@ -243,6 +285,8 @@ class DeepFn(FnTr):
                     s2 = s2["inner"][0]
                 if s2.get("kind") == "DeclRefExpr":
                     return self.ref(s2, P)
+                if s2.get("kind") == "ArraySubscriptExpr":
+                    return self.local_byte_load(s2, P)
                 off, w, ct = self.member(s2, P)
                 if ct[0] != "i":
                     raise Untranslatable("load of non-integer member")
@@ -265,6 +309,24 @@ class DeepFn(FnTr):
             raise Untranslatable("cast kind " + str(ck))
         if k == "DeclRefExpr":
             return self.ref(n, P)
+        if k == "InitListExpr" and len(n.get("inner", [])) == 1:
+            return self.dx(n["inner"][0], P)
+        if k == "FloatingLiteral":
+            if str(n.get("value")) not in ("0", "0.0"):
+                raise Untranslatable("floating literal other than +0")
+            return ("v", P.emit(".const 0"))
+        if k == "UnaryOperator" and n["opcode"] == "&":
+            # address of a local scalar (parameter or variable held in the SSA environment): a pointer to its first byte, usable only for
+            # byte access through `char*` with constant subscripts (`swapEndian(float)`)
+            sub = n["inner"][0]
+            while sub.get("kind") == "ParenExpr":
+                sub = sub["inner"][0]
+            if sub.get("kind") != "DeclRefExpr" or sub["referencedDecl"]["id"] not in P.env:
+                raise Untranslatable("address of a non-local")
+            t = self.ty(sub)
+            if t[0] != "i" or P.env[sub["referencedDecl"]["id"]][0] != "v":
+                raise Untranslatable("address of a non-scalar local")
+            return ("lp", sub["referencedDecl"]["id"], t[1])
         if k == "UnaryOperator":
             op = n["opcode"]
             sub = n["inner"][0]
@@ -455,6 +517,9 @@ class DeepFn(FnTr):
         P.env = dict(binds)
         try:
             for s in body[:-1]:
+                if s.get("kind") == "BinaryOperator" and s.get("opcode") == "=" and self.strip_parens(s["inner"][0]).get("kind") == "ArraySubscriptExpr":
+                    sub.local_byte_store(s, P)
+                    continue
                 if s.get("kind") != "DeclStmt":
                     raise Untranslatable("callee used as a value is not { declarations; return e; }")
                 for dd in s.get("inner", []):
@@ -509,6 +574,14 @@ def generate_programs(T):
     failed = {}
     shallow = {id(f.node): f.lean for f in T.order}
     used = set()
+    T.float_bits = True
+    try:
+        return _generate_programs(T, out, meta, failed, shallow, used)
+    finally:
+        T.float_bits = False
+
+
+def _generate_programs(T, out, meta, failed, shallow, used):
     for node in T.all_functions():
         qual = T.tu.qualname(node)
         name = shallow.get(id(node)) or T.lean_name(node)
